@@ -63,11 +63,90 @@ def PreservesTorn (c : Cfg) (ep : EP) : Prop :=
     ∃ idx, mainIndex c d = some idx ∧ (Covers order idx →
       ∃ idx', mainIndex c (d.applyAll (compactVia c mk d ep order bs)) = some idx' ∧ idx'.Same idx)
 
-/-- The full-strength statement. -/
+/-! ### Histories: sessions, single chronicler calls, compactions in between -/
+
+/-- a history at session granularity: a writing session (`Write(items)` … `Close`) or a compaction -/
+inductive SAct where
+  | session (items : List (Op × Nat))
+  | compact (ep : EP) (order : List (Nat × Nat))
+
+def sStep (c : Cfg) (mk : Mk) (nl bs : Nat) (d : Disk) : SAct → Disk
+  | .session items =>
+    let w1 := cWrite c mk d { w := none, nlName := nl, bs := bs } items
+    (d.applyAll w1.2).applyAll (cClose c mk w1.1).2
+  | .compact ep order => d.applyAll (compactVia c mk d ep order bs)
+
+def sWritten : List SAct → List Op
+  | [] => []
+  | .session items :: r => items.map (·.1) ++ sWritten r
+  | .compact _ _ :: r => sWritten r
+
+/-- every compaction goes through an entry point that removes the temp, and iterates over exactly the live keys -/
+def sValid (c : Cfg) (mk : Mk) (nl bs : Nat) : Disk → List SAct → Prop
+  | _, [] => True
+  | d, .session items :: r => sValid c mk nl bs (sStep c mk nl bs d (.session items)) r
+  | d, .compact ep order :: r =>
+    ep.rmFirst c = true ∧ (∀ idx, mainIndex c d = some idx → Covers order idx) ∧
+      sValid c mk nl bs (sStep c mk nl bs d (.compact ep order)) r
+
+/-- the disk between sessions: nothing, or a clean main file and no temp -/
+def Between (nl : Nat) (d : Disk) (idx : Index) : Prop :=
+  (d = {} ∧ idx = []) ∨ ∃ blocks, (∀ b ∈ blocks, b.WF) ∧ d = cleanDisk nl blocks none ∧ idx = Index.replay [] (entsOf blocks)
+
+inductive MAct where
+  | w (items : List (Op × Nat))
+  | sync
+  | close
+  | compactLocked (order : List (Nat × Nat))            -- whatever the writer holds at that moment
+  | compactOff (ep : EP) (order : List (Nat × Nat))     -- CLI / Load self-heal: no writer is open
+
+structure MSt where
+  cs : CSt
+  d : Disk
+
+def mStep (c : Cfg) (mk : Mk) (s : MSt) : MAct → MSt
+  | .w items => ⟨(cWrite c mk s.d s.cs items).1, s.d.applyAll (cWrite c mk s.d s.cs items).2⟩
+  | .sync => ⟨(cSync c mk s.cs).1, s.d.applyAll (cSync c mk s.cs).2⟩
+  | .close => ⟨(cClose c mk s.cs).1, s.d.applyAll (cClose c mk s.cs).2⟩
+  | .compactLocked order => ⟨(cCompactLocked c mk s.d s.cs order).1, s.d.applyAll (cCompactLocked c mk s.d s.cs order).2⟩
+  | .compactOff ep order =>
+    match s.cs.w with
+    | some _ => s
+    | none => ⟨s.cs, s.d.applyAll (compactVia c mk s.d ep order s.cs.bs)⟩
+
+def mWritten : List MAct → List Op
+  | [] => []
+  | .w items :: r => items.map (·.1) ++ mWritten r
+  | _ :: r => mWritten r
+
+/-- every compaction removes the temp first and iterates over exactly the keys that are live in
+    the file it reads (for the locked entry point: the file after the writer was closed) -/
+def mValid (c : Cfg) (mk : Mk) : MSt → List MAct → Prop
+  | _, [] => True
+  | s, .compactLocked order :: r =>
+    EP.rmFirst c .locked = true ∧
+      (∀ idx, mainIndex c (s.d.applyAll (cClose c mk s.cs).2) = some idx → Covers order idx) ∧
+      mValid c mk (mStep c mk s (.compactLocked order)) r
+  | s, .compactOff ep order :: r =>
+    ep.rmFirst c = true ∧ (∀ idx, mainIndex c s.d = some idx → Covers order idx) ∧
+      mValid c mk (mStep c mk s (.compactOff ep order)) r
+  | s, a :: r => mValid c mk (mStep c mk s a) r
+
+
+/-- The full-strength statement: every single compaction preserves the live set (also on a main
+    file with a torn tail) and is crash-atomic, and whole histories — compactions between writing
+    sessions, and locked compactions in the middle of a session, on an open writer that still
+    buffers entries — load to the replay of everything written. -/
 structure Holds (c : Cfg) : Prop where
   preserves : ∀ ep, Preserves c ep
   preservesTorn : ∀ ep, PreservesTorn c ep
   atomic : Atomic c
+  anywhere : ∀ (mk : Mk), MkOk mk → ∀ (nl bs : Nat) (acts : List SAct), sValid c mk nl bs {} acts →
+    ∃ idx, Between nl (acts.foldl (sStep c mk nl bs) {}) idx ∧ idx.Same (Index.replay [] (sWritten acts))
+  midSession : ∀ (mk : Mk), MkOk mk → ∀ (nl bs : Nat) (acts : List MAct),
+    mValid c mk ⟨{ w := none, nlName := nl, bs := bs }, {}⟩ acts →
+    ∃ idx, Between nl (mStep c mk (acts.foldl (mStep c mk) ⟨{ w := none, nlName := nl, bs := bs }, {}⟩) .close).d idx ∧
+      idx.Same (Index.replay [] (mWritten acts))
 
 /-! ### Theorems -/
 
@@ -117,11 +196,9 @@ theorem compact_preserves_torn (c : Cfg) (ep : EP) (hrm : ep.rmFirst c = true) :
       exact (Index.get_eq_none_of_not_mem _ _ (fun hm' => hk ((hcov k).mpr hm'))).symm
 
 /-- the encoder used by the closed witnesses: one payload byte per block -/
-def mk0 : Mk := fun es => { hdr := [1, 0, 0, 0, 0, 0, 0, 0, 0, 0, 0, 0, 0, 0, 0, 0], plen := 1, ents := es }
+def mk0 : Mk := mkP 1
 
-theorem mk0_ok : MkOk mk0 := by
-  intro es _
-  exact ⟨⟨rfl, rfl, Nat.one_pos⟩, rfl⟩
+theorem mk0_ok : MkOk mk0 := mkP_ok 1 Nat.one_pos
 
 /-- An entry point that opens the temp without removing it resurrects whatever a stale,
     parseable temp file contains: a key `z` that is not live before is live afterwards.
@@ -152,7 +229,7 @@ theorem not_preserves_of_stale (c : Cfg) (hc : c.truncatesTornTail = false) (ep 
   intro hp
   -- empty main file, stale temp holding key 7
   have hwz : ∀ b ∈ [mk0 [Op.put 7 1]], b.WF := by
-    intro b hb; simp only [List.mem_cons, List.not_mem_nil, or_false] at hb; subst hb; exact (mk0_ok _ (by simp)).1
+    intro b hb; simp only [List.mem_cons, List.not_mem_nil, or_false] at hb; subst hb; exact (mk0_ok _ (by simp) (by decide)).1
   obtain ⟨idx1, h1, hsame⟩ := hp mk0 mk0_ok 0 100 [] (by simp) (some (fileCells 0 [mk0 [Op.put 7 1]])) []
     (by intro k; simp [entsOf, Index.replay, Index.keys])
   obtain ⟨idx2, h2, hget⟩ := compact_stale_temp_resurrects c hc ep hrm mk0 mk0_ok 0 100 0 [] [mk0 [Op.put 7 1]]
@@ -190,7 +267,7 @@ theorem compact_crash_atomic (c : Cfg) (hf : c.closeFsyncs = true) : Atomic c :=
 theorem compact_no_fsync_loses (c : Cfg) (hf : c.closeFsyncs = false) : ¬ Atomic c := by
   intro ha
   have hwf : ∀ b ∈ [mk0 [Op.put 1 1]], b.WF := by
-    intro b hb; simp only [List.mem_cons, List.not_mem_nil, or_false] at hb; subst hb; exact (mk0_ok _ (by simp)).1
+    intro b hb; simp only [List.mem_cons, List.not_mem_nil, or_false] at hb; subst hb; exact (mk0_ok _ (by simp) (by decide)).1
   have hidx := mainIndex_clean c 0 [mk0 [Op.put 1 1]] hwf none
   have hops : compactVia c mk0 (cleanDisk 0 [mk0 [Op.put 1 1]] none) .cli [(1, 10)] 100 =
       [.create .temp, .write .temp 0 (fhCells 0),
@@ -198,7 +275,7 @@ theorem compact_no_fsync_loses (c : Cfg) (hf : c.closeFsyncs = false) : ¬ Atomi
        .write .temp 0 (fhCells 0), .write .temp 0 (fhCells 0), .rename .temp .main] := by
     simp only [compactVia, hidx]
     simp [compactOps, rmTempOps, cleanDisk, openWriter, Disk.get, mainNl_clean, createOps, liveEntries, entsOf,
-      Index.replay, Index.apply, Index.put, Index.del, Index.get, addManyW, addW, closeW, flushW, hf, mk0,
+      Index.replay, Index.apply, Index.put, Index.del, Index.get, addManyW, addW, closeW, flushW, hf, mk0, mkP, WSt.push, WSt.full, maxEnts,
       Disk.applyAll, mainNl, fileCells, headerOf_file]
   have h := ha mk0 mk0_ok 0 100 [mk0 [Op.put 1 1]] hwf none .cli [(1, 10)] 7 1 0
   rw [hops] at h
@@ -232,150 +309,11 @@ example : MkOk mk0 ∧ (∀ b ∈ [mk0 [Op.put 1 1, Op.put 2 5], mk0 [Op.del 1]]
   refine ⟨mk0_ok, ?_, ?_⟩
   · intro b hb
     simp only [List.mem_cons, List.not_mem_nil, or_false] at hb
-    rcases hb with rfl | rfl <;> exact ⟨rfl, rfl, Nat.one_pos⟩
+    rcases hb with rfl | rfl <;> exact (mk0_ok _ (by simp) (by decide)).1
   · intro k
-    simp [entsOf, mk0, Index.replay, Index.apply, Index.put, Index.del, Index.keys]
-
-/-! ### The fragment that always holds, and the decision over the extracted facts -/
-
-/-- what is proved whatever the facts: entry points that remove the temp preserve the live
-    set; with the fsync before the rename every crash image is old or new -/
-def Partial (c : Cfg) : Prop :=
-  (∀ ep, ep.rmFirst c = true → Preserves c ep ∧ PreservesTorn c ep) ∧ (c.closeFsyncs = true → Atomic c)
-
-theorem C03_partial (c : Cfg) : Partial c :=
-  ⟨fun ep h => ⟨compact_preserves c ep h, compact_preserves_torn c ep h⟩, fun h => compact_crash_atomic c h⟩
-
-theorem holds_of_good (c : Cfg) (h1 : ∀ ep : EP, ep.rmFirst c = true) (h2 : c.closeFsyncs = true) : Holds c :=
-  ⟨fun ep => compact_preserves c ep (h1 ep), fun ep => compact_preserves_torn c ep (h1 ep), compact_crash_atomic c h2⟩
-
-structure Facts where
-  /-- `CleanupCompactionTemp` precedes `NewCompactor(...).Compact()` in runCompactionLocked -/
-  rmTempLocked : Tri
-  /-- `os.Remove(tempPath)` precedes `NewFileWriterWithName` in CompactFromIndex -/
-  rmTempFromIndex : Tri
-  /-- a removal of the temp precedes `NewFileWriterWithName` in Compactor.Compact -/
-  rmTempCompactor : Tri
-  /-- `Load` calls `CleanupCompactionTemp` before reading -/
-  loadCleansTemp : Tri
-  /-- `NewFileWriterWithName` opens an existing path for append (no truncation) -/
-  opensExistingForAppend : Tri
-  /-- `FileWriter.Close` fsyncs before closing -/
-  closeFsyncs : Tri
-  /-- in both compaction bodies `os.Rename` comes after `writer.Close()` and is the last file operation -/
-  renameAfterClose : Tri
-  /-- … and a failing `writer.Close()` (flush or fsync error) returns before the rename -/
-  closeErrorAborts : Tri
-  /-- flushLocked writes block header, payload, file header, in this order -/
-  flushOrderCanonical : Tri
-  /-- the CLI's compactSwamp only calls NewCompactor(...).Compact() / ShouldCompact() -/
-  cliUsesCompactorOnly : Tri
-  /-- the inline triggers (Write, Close, ForceCompaction) all go through runCompactionLocked -/
-  triggersUseLocked : Tri
-  /-- Load's self-heal goes through CompactFromIndex -/
-  loadUsesFromIndex : Tri
-  /-- reader facts: not used by any C03 theorem (clean files load under every reader
-      configuration); they steer the correspondence driver on images with a damaged temp -/
-  shortHeaderIsEOF : Tri
-  tornDataIsEOF : Tri
-  truncatesTornTail : Tri
-  deriving Repr
-
-def cfgOf (f : Facts) : Cfg :=
-  { r := ⟨f.shortHeaderIsEOF.isYes, f.tornDataIsEOF.isYes, false⟩, syncFsyncs := true, closeFsyncs := f.closeFsyncs.isYes,
-    truncatesTornTail := f.truncatesTornTail.isYes, loadCleansTemp := f.loadCleansTemp.isYes,
-    rmTempLocked := f.rmTempLocked.isYes, rmTempFromIndex := f.rmTempFromIndex.isYes,
-    rmTempCompactor := f.rmTempCompactor.isYes }
-
-def modelApplies (f : Facts) : Bool :=
-  f.opensExistingForAppend.isYes && f.renameAfterClose.isYes && f.closeErrorAborts.isYes && f.flushOrderCanonical.isYes &&
-  f.cliUsesCompactorOnly.isYes && f.triggersUseLocked.isYes && f.loadUsesFromIndex.isYes &&
-  f.rmTempLocked != .unknown && f.rmTempFromIndex != .unknown && f.rmTempCompactor != .unknown &&
-  f.loadCleansTemp != .unknown && f.closeFsyncs != .unknown &&
-  f.shortHeaderIsEOF != .unknown && f.tornDataIsEOF != .unknown && f.truncatesTornTail != .unknown
-
-def findings (f : Facts) : List String :=
-  (if EP.rmFirst (cfgOf f) .locked then [] else ["C03-locked-stale-temp"]) ++
-  (if EP.rmFirst (cfgOf f) .fromIndex then [] else ["C03-load-stale-temp"]) ++
-  (if EP.rmFirst (cfgOf f) .cli then [] else ["C03-cli-stale-temp"]) ++
-  (if (cfgOf f).closeFsyncs then [] else ["C03-rename-without-fsync"])
-
-def classify (f : Facts) : Verdict :=
-  if !modelApplies f then .undetermined "a compaction fact was not recognised (the model does not describe this code)"
-  else if findings f = [] then .holds
-  else if f.truncatesTornTail.isYes then
-    .undetermined "an entry point does not remove the temp and the open truncates: no witness theorem for this combination"
-  else .violated (findings f)
-
-theorem ite_nil_iff (b : Bool) (x : String) : (if b = true then ([] : List String) else [x]) = [] ↔ b = true := by
-  cases b <;> simp
-
-theorem classify_sound (f : Facts) : (classify f).Sound (Holds (cfgOf f)) (Partial (cfgOf f)) := by
-  unfold classify
-  split
-  · trivial
-  · split
-    · rename_i hfnd
-      simp only [findings, List.append_eq_nil_iff, ite_nil_iff] at hfnd
-      obtain ⟨⟨⟨h1, h2⟩, h3⟩, h4⟩ := hfnd
-      refine holds_of_good _ ?_ h4
-      intro ep
-      cases ep
-      · exact h1
-      · exact h2
-      · exact h3
-    · split
-      · trivial
-      rename_i hfnd htr
-      refine ⟨?_, C03_partial _⟩
-      intro hh
-      apply hfnd
-      have hc : (cfgOf f).truncatesTornTail = false := by simpa [cfgOf] using htr
-      simp only [findings, List.append_eq_nil_iff, ite_nil_iff]
-      refine ⟨⟨⟨?_, ?_⟩, ?_⟩, ?_⟩
-      · cases h : EP.rmFirst (cfgOf f) .locked
-        · exact absurd (hh.preserves .locked) (not_preserves_of_stale _ hc _ h)
-        · rfl
-      · cases h : EP.rmFirst (cfgOf f) .fromIndex
-        · exact absurd (hh.preserves .fromIndex) (not_preserves_of_stale _ hc _ h)
-        · rfl
-      · cases h : EP.rmFirst (cfgOf f) .cli
-        · exact absurd (hh.preserves .cli) (not_preserves_of_stale _ hc _ h)
-        · rfl
-      · cases h : (cfgOf f).closeFsyncs
-        · exact absurd hh.atomic (compact_no_fsync_loses _ h)
-        · rfl
-
-end Hv.C03
-
-namespace Hv.C03
-open Hv.BlockStore
+    simp [entsOf, mk0, mkP, Index.replay, Index.apply, Index.put, Index.del, Index.keys]
 
 /-! ### Compaction anywhere in a history -/
-
-/-- a history at session granularity: a writing session (`Write(items)` … `Close`) or a compaction -/
-inductive SAct where
-  | session (items : List (Op × Nat))
-  | compact (ep : EP) (order : List (Nat × Nat))
-
-def sStep (c : Cfg) (mk : Mk) (nl bs : Nat) (d : Disk) : SAct → Disk
-  | .session items =>
-    let w1 := cWrite c mk d { w := none, nlName := nl, bs := bs } items
-    (d.applyAll w1.2).applyAll (cClose c mk w1.1).2
-  | .compact ep order => d.applyAll (compactVia c mk d ep order bs)
-
-def sWritten : List SAct → List Op
-  | [] => []
-  | .session items :: r => items.map (·.1) ++ sWritten r
-  | .compact _ _ :: r => sWritten r
-
-/-- every compaction goes through an entry point that removes the temp, and iterates over exactly the live keys -/
-def sValid (c : Cfg) (mk : Mk) (nl bs : Nat) : Disk → List SAct → Prop
-  | _, [] => True
-  | d, .session items :: r => sValid c mk nl bs (sStep c mk nl bs d (.session items)) r
-  | d, .compact ep order :: r =>
-    ep.rmFirst c = true ∧ (∀ idx, mainIndex c d = some idx → Covers order idx) ∧
-      sValid c mk nl bs (sStep c mk nl bs d (.compact ep order)) r
 
 theorem Same_replay {a b : Index} (h : a.Same b) (es : List Op) : (Index.replay a es).Same (Index.replay b es) := by
   induction es generalizing a b with
@@ -395,10 +333,6 @@ theorem Same_replay {a b : Index} (h : a.Same b) (es : List Op) : (Index.replay 
       · rfl
       · exact h k
 
-/-- the disk between sessions: nothing, or a clean main file and no temp -/
-def Between (nl : Nat) (d : Disk) (idx : Index) : Prop :=
-  (d = {} ∧ idx = []) ∨ ∃ blocks, (∀ b ∈ blocks, b.WF) ∧ d = cleanDisk nl blocks none ∧ idx = Index.replay [] (entsOf blocks)
-
 theorem disk_ext (d : Disk) (m t : Option (List Cell)) (hm : d.get .main = m) (ht : d.get .temp = t) :
     d = { main := m, temp := t } := by
   cases d; simp_all [Disk.get]
@@ -416,8 +350,8 @@ theorem session_step (c : Cfg) (mk : Mk) (hmk : MkOk mk) (nl bs : Nat) (d : Disk
       Between nl ((d1.applyAll (addManyW mk w items).2).applyAll (closeW c mk (addManyW mk w items).1))
         (Index.replay (Index.replay [] (entsOf blocks)) (items.map (·.1))) := by
     intro d1 w blocks hwf hinv hp hbuf htemp
-    obtain ⟨a, ha, pa⟩ := addManyW_spec mk hmk items d1 w _ hinv
-    obtain ⟨b, hb, hbwf, hfile, hother⟩ := closeW_spec c mk hmk _ _ _ pa.inv
+    obtain ⟨a, ha, pa⟩ := addManyW_spec mk hmk items d1 w _ hinv (by rw [hbuf]; exact maxEnts_pos)
+    obtain ⟨b, hb, hbwf, hfile, hother⟩ := closeW_spec c mk hmk _ _ _ pa.inv (Nat.le_of_lt pa.cnt)
     rw [pa.path, hp] at hfile
     have ht : ((d1.applyAll (addManyW mk w items).2).applyAll (closeW c mk (addManyW mk w items).1)).get .temp = none := by
       rw [hother .temp (by rw [pa.path, hp]; decide), pa.other .temp (by rw [hp]; decide)]; exact htemp
@@ -497,5 +431,375 @@ theorem compaction_anywhere (c : Cfg) (mk : Mk) (hmk : MkOk mk) (nl bs : Nat) (a
         obtain ⟨idx', hb', hs'⟩ := ih _ idx1 spec hb1 (hs1.trans hs) hv'
         exact ⟨idx', hb', by simpa [sWritten] using hs'⟩
   exact gen acts {} [] [] (Or.inl ⟨rfl, rfl⟩) (Index.Same.refl _) hv
+
+/-! ### Compaction in the middle of a session
+
+The write- and close-triggers and `ForceCompaction` go through `runCompactionLocked`, which runs
+while the chronicler holds an open writer with buffered, not yet flushed entries: it closes the
+writer (flushing them), compacts, and the next `Write` reopens the file.  Histories here are at the
+granularity of single chronicler calls. -/
+
+/-- the chronicler between two calls: no writer and a clean file, or an open writer at the end of a
+    clean file with some entries still buffered; `spec` is what a load must return once they are flushed -/
+def MInv (nl bs : Nat) (s : MSt) (spec : Index) : Prop :=
+  s.cs.nlName = nl ∧ s.cs.bs = bs ∧
+  match s.cs.w with
+  | none => ∃ idx, Between nl s.d idx ∧ idx.Same spec
+  | some w => ∃ blocks, (∀ b ∈ blocks, b.WF) ∧ WInv s.d w (fileCells nl blocks) ∧ w.path = .main ∧
+      s.d.get .temp = none ∧ w.buf.length < maxEnts ∧ (Index.replay [] (entsOf blocks ++ w.buf)).Same spec
+
+/-- `Sync` as a writer step: the buffered entries become whole blocks, nothing else changes -/
+theorem syncW_post (c : Cfg) (mk : Mk) (hmk : MkOk mk) (d : Disk) (w : WSt) (f : List Cell) (h : WInv d w f)
+    (hlen : w.buf.length ≤ maxEnts) :
+    ∃ nbs, entsOf nbs = w.buf ∧ (syncW c mk w).1.buf = [] ∧
+      WPost d w f (d.applyAll (syncW c mk w).2) (syncW c mk w).1 nbs := by
+  obtain ⟨nbs, he, hbuf, hp⟩ := flushW_spec mk hmk d w f h hlen
+  refine ⟨nbs, he, hbuf, ?_⟩
+  have hd : d.applyAll (syncW c mk w).2 = d.applyAll (flushW mk w).2 := by
+    simp only [syncW, Disk.applyAll_append, Disk.applyAll_cons, Disk.applyAll_nil]
+    have hno := header_rewrite_noop _ _ _ hp.inv
+    rw [hp.path, hp.nl] at hno
+    rw [hno]
+    cases c.syncFsyncs <;> simp [Disk.applyAll, Disk.apply]
+  rw [hd]
+  exact hp
+
+/-- closing a writer in the invariant leaves a clean file that loads to `spec` -/
+theorem close_between (c : Cfg) (mk : Mk) (hmk : MkOk mk) (nl : Nat) (d : Disk) (w : WSt) (blocks : List Block)
+    (hwf : ∀ b ∈ blocks, b.WF) (hinv : WInv d w (fileCells nl blocks)) (hp : w.path = .main) (htemp : d.get .temp = none)
+    (hcnt : w.buf.length < maxEnts) :
+    Between nl (d.applyAll (closeW c mk w)) (Index.replay [] (entsOf blocks ++ w.buf)) := by
+  obtain ⟨b, hb, hbwf, hfile, hother⟩ := closeW_spec c mk hmk _ _ _ hinv (Nat.le_of_lt hcnt)
+  rw [hp] at hfile
+  have ht : (d.applyAll (closeW c mk w)).get .temp = none := by
+    rw [hother .temp (by rw [hp]; decide)]; exact htemp
+  right
+  refine ⟨blocks ++ b, ?_, ?_, ?_⟩
+  · intro x hx
+    rcases List.mem_append.mp hx with hx | hx
+    · exact hwf x hx
+    · exact hbwf x hx
+  · rw [disk_ext _ _ _ hfile ht]
+    simp [cleanDisk, fileCells, render_append, List.append_assoc]
+  · rw [entsOf_append, hb]
+
+theorem Same_symm {a b : Index} (h : a.Same b) : b.Same a := fun k => (h k).symm
+
+/-- one chronicler call keeps the invariant -/
+theorem mStep_inv (c : Cfg) (mk : Mk) (hmk : MkOk mk) (nl bs : Nat) (s : MSt) (spec : Index) (h : MInv nl bs s spec)
+    (a : MAct) (hv : mValid c mk s [a]) :
+    ∃ spec', MInv nl bs (mStep c mk s a) spec' ∧ spec'.Same (Index.replay spec (mWritten [a])) := by
+  obtain ⟨hnl, hbs, hw⟩ := h
+  -- writing from an open writer
+  have wr : ∀ (d0 : Disk) (w : WSt) (blocks : List Block) (items : List (Op × Nat)), (∀ b ∈ blocks, b.WF) →
+      WInv d0 w (fileCells nl blocks) → w.path = .main → d0.get .temp = none → w.buf.length < maxEnts →
+      (Index.replay [] (entsOf blocks ++ w.buf)).Same spec →
+      ∃ blocks', (∀ b ∈ blocks', b.WF) ∧
+        WInv (d0.applyAll (addManyW mk w items).2) (addManyW mk w items).1 (fileCells nl blocks') ∧
+        (addManyW mk w items).1.path = .main ∧ (d0.applyAll (addManyW mk w items).2).get .temp = none ∧
+        (addManyW mk w items).1.buf.length < maxEnts ∧
+        (Index.replay [] (entsOf blocks' ++ (addManyW mk w items).1.buf)).Same (Index.replay spec (items.map (·.1))) := by
+    intro d0 w blocks items hwf hinv hp htemp hcnt hs
+    obtain ⟨a', ha, pa⟩ := addManyW_spec mk hmk items d0 w _ hinv hcnt
+    refine ⟨blocks ++ a', ?_, ?_, by rw [pa.path, hp], ?_, pa.cnt, ?_⟩
+    · intro x hx
+      rcases List.mem_append.mp hx with hx | hx
+      · exact hwf x hx
+      · exact pa.wf x hx
+    · have : fileCells nl (blocks ++ a') = fileCells nl blocks ++ render a' := by
+        simp [fileCells, render_append, List.append_assoc]
+      rw [this]; exact pa.inv
+    · rw [pa.other .temp (by rw [hp]; decide)]; exact htemp
+    · rw [entsOf_append, List.append_assoc, ha, ← List.append_assoc, Index.replay_append]
+      exact Same_replay hs _
+  cases a with
+  | w items =>
+    simp only [mStep, mWritten, List.append_nil]
+    by_cases hemp : items.isEmpty = true
+    · have : items = [] := by simpa using hemp
+      subst this
+      refine ⟨spec, ?_, by simp [Index.replay, Index.Same.refl]⟩
+      simp only [cWrite, List.isEmpty_nil, if_true, Disk.applyAll_nil]
+      exact ⟨hnl, hbs, hw⟩
+    · simp only [cWrite, hemp, if_false, Bool.false_eq_true]
+      refine ⟨Index.replay spec (items.map (·.1)), ?_, Index.Same.refl _⟩
+      cases hcw : s.cs.w with
+      | some w0 =>
+        rw [hcw] at hw
+        obtain ⟨blocks, hwf, hinv, hp, htemp, hcnt, hs⟩ := hw
+        have he : ensureW c s.d s.cs = some (w0, []) := by simp [ensureW, hcw]
+        simp only [he, List.nil_append]
+        obtain ⟨bl', h1, h2, h3, h4, h5, h6⟩ := wr s.d w0 blocks items hwf hinv hp htemp hcnt hs
+        exact ⟨hnl, hbs, bl', h1, h2, h3, h4, h5, h6⟩
+      | none =>
+        rw [hcw] at hw
+        obtain ⟨idx, hb, hs⟩ := hw
+        rcases hb with ⟨hd, hidx⟩ | ⟨blocks, hwf, hd, hidx⟩
+        · -- the file is created
+          have hopen : ensureW c {} s.cs =
+              some ({ path := .main, pos := 64 + nl, nl := nl, buf := [], bufSize := 0, bs := bs }, createOps .main nl) := by
+            simp [ensureW, hcw, openWriter, Disk.get, hnl, hbs]
+          rw [hd]
+          simp only [hopen, Disk.applyAll_append, createOps_apply_main]
+          obtain ⟨bl', h1, h2, h3, h4, h5, h6⟩ := wr { main := some (fhCells nl ++ nmCells nl), temp := none }
+            { path := .main, pos := 64 + nl, nl := nl, buf := [], bufSize := 0, bs := bs } [] items (by simp)
+            ⟨by simp [Disk.get, fileCells_nil], by simp [fileCells_nil], fileCells_hdr nl []⟩ rfl rfl maxEnts_pos
+            (by subst hidx; simpa [entsOf, Index.replay] using hs)
+          exact ⟨hnl, hbs, bl', h1, h2, h3, h4, h5, h6⟩
+        · have hopen : ensureW c s.d s.cs =
+              some ({ path := .main, pos := (fileCells nl blocks).length, nl := nl, buf := [], bufSize := 0, bs := bs }, []) := by
+            simp only [ensureW, hcw, hd, cleanDisk, hnl, hbs]; exact openWriter_clean c nl bs blocks hwf none nl
+          simp only [hopen, List.nil_append]
+          obtain ⟨bl', h1, h2, h3, h4, h5, h6⟩ := wr s.d
+            { path := .main, pos := (fileCells nl blocks).length, nl := nl, buf := [], bufSize := 0, bs := bs } blocks items hwf
+            (by rw [hd]; exact ⟨rfl, rfl, fileCells_hdr nl blocks⟩) rfl (by rw [hd]; rfl) maxEnts_pos
+            (by subst hidx; simpa using hs)
+          exact ⟨hnl, hbs, bl', h1, h2, h3, h4, h5, h6⟩
+  | sync =>
+    simp only [mStep, mWritten, Index.replay, List.foldl_nil]
+    refine ⟨spec, ?_, Index.Same.refl _⟩
+    cases hcw : s.cs.w with
+    | none =>
+      simp only [cSync, hcw, Disk.applyAll_nil]
+      refine ⟨hnl, hbs, ?_⟩
+      rw [hcw] at hw ⊢; exact hw
+    | some w0 =>
+      rw [hcw] at hw
+      obtain ⟨blocks, hwf, hinv, hp, htemp, hcnt, hs⟩ := hw
+      simp only [cSync, hcw]
+      obtain ⟨nbs, he, hbuf, pa⟩ := syncW_post c mk hmk s.d w0 _ hinv (Nat.le_of_lt hcnt)
+      refine ⟨hnl, hbs, blocks ++ nbs, ?_, ?_, by rw [pa.path, hp], ?_, pa.cnt, ?_⟩
+      · intro x hx
+        rcases List.mem_append.mp hx with hx | hx
+        · exact hwf x hx
+        · exact pa.wf x hx
+      · have : fileCells nl (blocks ++ nbs) = fileCells nl blocks ++ render nbs := by
+          simp [fileCells, render_append, List.append_assoc]
+        rw [this]; exact pa.inv
+      · rw [pa.other .temp (by rw [hp]; decide)]; exact htemp
+      · rw [hbuf, List.append_nil, entsOf_append, he]; exact hs
+  | close =>
+    simp only [mStep, mWritten, Index.replay, List.foldl_nil]
+    refine ⟨spec, ?_, Index.Same.refl _⟩
+    cases hcw : s.cs.w with
+    | none =>
+      simp only [cClose, hcw, Disk.applyAll_nil]
+      refine ⟨hnl, hbs, ?_⟩
+      rw [hcw] at hw ⊢; exact hw
+    | some w0 =>
+      rw [hcw] at hw
+      obtain ⟨blocks, hwf, hinv, hp, htemp, hcnt, hs⟩ := hw
+      simp only [cClose, hcw]
+      exact ⟨hnl, hbs, _, close_between c mk hmk nl s.d w0 blocks hwf hinv hp htemp hcnt, hs⟩
+  | compactLocked order =>
+    obtain ⟨hrm, hcov, _⟩ := hv
+    simp only [mStep, mWritten, Index.replay, List.foldl_nil]
+    -- the disk after the writer was closed is between sessions
+    have hclosed : ∃ idx1, Between nl (s.d.applyAll (cClose c mk s.cs).2) idx1 ∧ idx1.Same spec ∧ (cClose c mk s.cs).1.w = none ∧
+        (cClose c mk s.cs).1.nlName = nl ∧ (cClose c mk s.cs).1.bs = bs := by
+      cases hcw : s.cs.w with
+      | none =>
+        rw [hcw] at hw
+        obtain ⟨idx, hb, hs⟩ := hw
+        have e : cClose c mk s.cs = (s.cs, []) := by simp [cClose, hcw]
+        rw [e]
+        exact ⟨idx, by rw [Disk.applyAll_nil]; exact hb, hs, hcw, hnl, hbs⟩
+      | some w0 =>
+        rw [hcw] at hw
+        obtain ⟨blocks, hwf, hinv, hp, htemp, hcnt, hs⟩ := hw
+        have e : cClose c mk s.cs = ({ s.cs with w := none }, closeW c mk w0) := by simp [cClose, hcw]
+        rw [e]
+        exact ⟨_, close_between c mk hmk nl s.d w0 blocks hwf hinv hp htemp hcnt, hs, rfl, hnl, hbs⟩
+    obtain ⟨idx1, hb1, hs1, hwn, hnl1, hbs1⟩ := hclosed
+    obtain ⟨idx', hb', hs'⟩ := compact_step c mk hmk nl bs _ idx1 hb1 .locked hrm order hcov
+    refine ⟨spec, ⟨?_, ?_, ?_⟩, Index.Same.refl _⟩
+    · simp only [cCompactLocked]; exact hnl1
+    · simp only [cCompactLocked]; exact hbs1
+    · simp only [cCompactLocked, hwn]
+      refine ⟨idx', ?_, hs'.trans hs1⟩
+      rw [Disk.applyAll_append]
+      simpa [sStep, hbs] using hb'
+  | compactOff ep order =>
+    obtain ⟨hrm, hcov, _⟩ := hv
+    simp only [mStep, mWritten, Index.replay, List.foldl_nil]
+    refine ⟨spec, ?_, Index.Same.refl _⟩
+    cases hcw : s.cs.w with
+    | some w0 => exact ⟨hnl, hbs, by rw [hcw] at hw ⊢; exact hw⟩
+    | none =>
+      rw [hcw] at hw
+      obtain ⟨idx, hb, hs⟩ := hw
+      obtain ⟨idx', hb', hs'⟩ := compact_step c mk hmk nl bs _ idx hb ep hrm order hcov
+      refine ⟨hnl, hbs, ?_⟩
+      simp only [hcw]
+      exact ⟨idx', by simpa [sStep, hbs] using hb', hs'.trans hs⟩
+
+theorem mWritten_cons (a : MAct) (r : List MAct) : mWritten (a :: r) = mWritten [a] ++ mWritten r := by
+  cases a <;> simp [mWritten]
+
+theorem mValid_head (c : Cfg) (mk : Mk) (s : MSt) (a : MAct) (r : List MAct) (h : mValid c mk s (a :: r)) :
+    mValid c mk s [a] ∧ mValid c mk (mStep c mk s a) r := by
+  cases a with
+  | w items => exact ⟨trivial, h⟩
+  | sync => exact ⟨trivial, h⟩
+  | close => exact ⟨trivial, h⟩
+  | compactLocked order => exact ⟨⟨h.1, h.2.1, trivial⟩, h.2.2⟩
+  | compactOff ep order => exact ⟨⟨h.1, h.2.1, trivial⟩, h.2.2⟩
+
+/-- **Compaction in the middle of a session.**  Whatever chronicler calls a history is made of —
+    writes, syncs, closes, locked compactions at any moment (also between two writes of an open
+    writer that still buffers entries), offline compactions while no writer is open — once the
+    chronicler is closed the file loads to the replay of everything that was written. -/
+theorem compaction_mid_session (c : Cfg) (mk : Mk) (hmk : MkOk mk) (nl bs : Nat) (acts : List MAct)
+    (hv : mValid c mk ⟨{ w := none, nlName := nl, bs := bs }, {}⟩ acts) :
+    ∃ idx, Between nl (mStep c mk (acts.foldl (mStep c mk) ⟨{ w := none, nlName := nl, bs := bs }, {}⟩) .close).d idx ∧
+      idx.Same (Index.replay [] (mWritten acts)) := by
+  have gen : ∀ (acts : List MAct) (s : MSt) (spec : Index), MInv nl bs s spec → mValid c mk s acts →
+      ∃ spec', MInv nl bs (acts.foldl (mStep c mk) s) spec' ∧ spec'.Same (Index.replay spec (mWritten acts)) := by
+    intro acts
+    induction acts with
+    | nil => intro s spec h _; exact ⟨spec, h, by simp [mWritten, Index.replay, Index.Same.refl]⟩
+    | cons a rest ih =>
+      intro s spec h hv
+      obtain ⟨hv1, hv2⟩ := mValid_head c mk s a rest hv
+      obtain ⟨spec1, h1, hs1⟩ := mStep_inv c mk hmk nl bs s spec h a hv1
+      obtain ⟨spec2, h2, hs2⟩ := ih _ spec1 h1 hv2
+      refine ⟨spec2, h2, ?_⟩
+      rw [mWritten_cons, Index.replay_append]
+      exact hs2.trans (Same_replay hs1 _)
+  have h0 : MInv nl bs ⟨{ w := none, nlName := nl, bs := bs }, {}⟩ [] :=
+    ⟨rfl, rfl, [], Or.inl ⟨rfl, rfl⟩, Index.Same.refl _⟩
+  obtain ⟨spec, hinv, hs⟩ := gen acts _ _ h0 hv
+  obtain ⟨spec', hinv', hs'⟩ := mStep_inv c mk hmk nl bs _ spec hinv .close trivial
+  obtain ⟨_, _, hw⟩ := hinv'
+  have hnone : (mStep c mk (acts.foldl (mStep c mk) ⟨{ w := none, nlName := nl, bs := bs }, {}⟩) .close).cs.w = none := by
+    simp only [mStep, cClose]; split <;> simp_all
+  rw [hnone] at hw
+  obtain ⟨idx, hb, hsi⟩ := hw
+  refine ⟨idx, hb, hsi.trans (hs'.trans ?_)⟩
+  simpa [mWritten, Index.replay] using hs
+
+
+/-! ### The fragment that always holds, and the decision over the extracted facts -/
+
+/-- what is proved whatever the facts: entry points that remove the temp preserve the live
+    set; with the fsync before the rename every crash image is old or new -/
+def Partial (c : Cfg) : Prop :=
+  (∀ ep, ep.rmFirst c = true → Preserves c ep ∧ PreservesTorn c ep) ∧ (c.closeFsyncs = true → Atomic c)
+
+theorem C03_partial (c : Cfg) : Partial c :=
+  ⟨fun ep h => ⟨compact_preserves c ep h, compact_preserves_torn c ep h⟩, fun h => compact_crash_atomic c h⟩
+
+theorem holds_of_good (c : Cfg) (h1 : ∀ ep : EP, ep.rmFirst c = true) (h2 : c.closeFsyncs = true) : Holds c :=
+  ⟨fun ep => compact_preserves c ep (h1 ep), fun ep => compact_preserves_torn c ep (h1 ep), compact_crash_atomic c h2,
+   fun mk hmk nl bs acts hv => compaction_anywhere c mk hmk nl bs acts hv,
+   fun mk hmk nl bs acts hv => compaction_mid_session c mk hmk nl bs acts hv⟩
+
+structure Facts where
+  /-- `CleanupCompactionTemp` precedes `NewCompactor(...).Compact()` in runCompactionLocked -/
+  rmTempLocked : Tri
+  /-- `os.Remove(tempPath)` precedes `NewFileWriterWithName` in CompactFromIndex -/
+  rmTempFromIndex : Tri
+  /-- a removal of the temp precedes `NewFileWriterWithName` in Compactor.Compact -/
+  rmTempCompactor : Tri
+  /-- `Load` calls `CleanupCompactionTemp` before reading -/
+  loadCleansTemp : Tri
+  /-- `NewFileWriterWithName` opens an existing path for append (no truncation) -/
+  opensExistingForAppend : Tri
+  /-- `FileWriter.Close` fsyncs before closing -/
+  closeFsyncs : Tri
+  /-- in both compaction bodies `os.Rename` comes after `writer.Close()` and is the last file operation -/
+  renameAfterClose : Tri
+  /-- … and a failing `writer.Close()` (flush or fsync error) returns before the rename -/
+  closeErrorAborts : Tri
+  /-- flushLocked writes block header, payload, file header, in this order -/
+  flushOrderCanonical : Tri
+  /-- the CLI's compactSwamp only calls NewCompactor(...).Compact() / ShouldCompact() -/
+  cliUsesCompactorOnly : Tri
+  /-- the inline triggers (Write, Close, ForceCompaction) all go through runCompactionLocked -/
+  triggersUseLocked : Tri
+  /-- Load's self-heal goes through CompactFromIndex -/
+  loadUsesFromIndex : Tri
+  /-- reader facts: not used by any C03 theorem (clean files load under every reader
+      configuration); they steer the correspondence driver on images with a damaged temp -/
+  shortHeaderIsEOF : Tri
+  tornDataIsEOF : Tri
+  truncatesTornTail : Tri
+  /-- `WriteBuffer.Add` reports full at `math.MaxUint16` entries: a fault-free writer never hands
+      `CompressEntries` more than the 16-bit count field holds (the bound of `MkOk`) -/
+  flushesAtCountBound : Tri
+  /-- the reader assumptions of the model (established by C04): a payload that is not the one
+      written fails the checksum; the decoded length and the entry count are checked -/
+  validatesCrc : Tri
+  crcBeforeDecompress : Tri
+  validatesULen : Tri
+  boundsDecodedLen : Tri
+  parseConsumesAll : Tri
+  deriving Repr
+
+def cfgOf (f : Facts) : Cfg :=
+  { r := ⟨f.shortHeaderIsEOF.isYes, f.tornDataIsEOF.isYes, false⟩, syncFsyncs := true, closeFsyncs := f.closeFsyncs.isYes,
+    truncatesTornTail := f.truncatesTornTail.isYes, loadCleansTemp := f.loadCleansTemp.isYes,
+    rmTempLocked := f.rmTempLocked.isYes, rmTempFromIndex := f.rmTempFromIndex.isYes,
+    rmTempCompactor := f.rmTempCompactor.isYes }
+
+def modelApplies (f : Facts) : Bool :=
+  f.opensExistingForAppend.isYes && f.renameAfterClose.isYes && f.closeErrorAborts.isYes && f.flushOrderCanonical.isYes &&
+  f.cliUsesCompactorOnly.isYes && f.triggersUseLocked.isYes && f.loadUsesFromIndex.isYes &&
+  f.rmTempLocked != .unknown && f.rmTempFromIndex != .unknown && f.rmTempCompactor != .unknown &&
+  f.loadCleansTemp != .unknown && f.closeFsyncs != .unknown &&
+  f.shortHeaderIsEOF != .unknown && f.tornDataIsEOF != .unknown && f.truncatesTornTail != .unknown &&
+  f.flushesAtCountBound.isYes && f.validatesCrc.isYes && f.validatesULen.isYes && f.parseConsumesAll.isYes
+
+def findings (f : Facts) : List String :=
+  (if EP.rmFirst (cfgOf f) .locked then [] else ["C03-locked-stale-temp"]) ++
+  (if EP.rmFirst (cfgOf f) .fromIndex then [] else ["C03-load-stale-temp"]) ++
+  (if EP.rmFirst (cfgOf f) .cli then [] else ["C03-cli-stale-temp"]) ++
+  (if (cfgOf f).closeFsyncs then [] else ["C03-rename-without-fsync"])
+
+def classify (f : Facts) : Verdict :=
+  if !modelApplies f then .undetermined "a compaction fact was not recognised (the model does not describe this code)"
+  else if findings f = [] then .holds
+  else if f.truncatesTornTail.isYes then
+    .undetermined "an entry point does not remove the temp and the open truncates: no witness theorem for this combination"
+  else .violated (findings f)
+
+theorem ite_nil_iff (b : Bool) (x : String) : (if b = true then ([] : List String) else [x]) = [] ↔ b = true := by
+  cases b <;> simp
+
+theorem classify_sound (f : Facts) : (classify f).Sound (Holds (cfgOf f)) (Partial (cfgOf f)) := by
+  unfold classify
+  split
+  · trivial
+  · split
+    · rename_i hfnd
+      simp only [findings, List.append_eq_nil_iff, ite_nil_iff] at hfnd
+      obtain ⟨⟨⟨h1, h2⟩, h3⟩, h4⟩ := hfnd
+      refine holds_of_good _ ?_ h4
+      intro ep
+      cases ep
+      · exact h1
+      · exact h2
+      · exact h3
+    · split
+      · trivial
+      rename_i hfnd htr
+      refine ⟨?_, C03_partial _⟩
+      intro hh
+      apply hfnd
+      have hc : (cfgOf f).truncatesTornTail = false := by simpa [cfgOf] using htr
+      simp only [findings, List.append_eq_nil_iff, ite_nil_iff]
+      refine ⟨⟨⟨?_, ?_⟩, ?_⟩, ?_⟩
+      · cases h : EP.rmFirst (cfgOf f) .locked
+        · exact absurd (hh.preserves .locked) (not_preserves_of_stale _ hc _ h)
+        · rfl
+      · cases h : EP.rmFirst (cfgOf f) .fromIndex
+        · exact absurd (hh.preserves .fromIndex) (not_preserves_of_stale _ hc _ h)
+        · rfl
+      · cases h : EP.rmFirst (cfgOf f) .cli
+        · exact absurd (hh.preserves .cli) (not_preserves_of_stale _ hc _ h)
+        · rfl
+      · cases h : (cfgOf f).closeFsyncs
+        · exact absurd hh.atomic (compact_no_fsync_loses _ h)
+        · rfl
 
 end Hv.C03
